@@ -42,8 +42,11 @@ func toTwosComplement(res, x *big.Int, targetBitSize uint) *big.Int {
 // toTwosComplement converts `res` to the big.Int representation from the two's complement format of a
 // signed integer.
 // `res` is returned and can be positive or negative.
-func fromTwosComplement(res *big.Int) *big.Int {
-	bytes := res.Bytes()
+func fromTwosComplement(res *big.Int, targetBitSize uint) *big.Int {
+	// NOTE: the sign bit is the top bit of the full-width representation,
+	// so the bytes must not be the minimal big-endian encoding of `res`.
+	bytes := make([]byte, targetBitSize/8)
+	res.FillBytes(bytes)
 	return values.BigEndianBytesToSignedBigInt(bytes)
 }
 
@@ -668,7 +671,7 @@ func (v Int128Value) BitwiseLeftShift(context ValueStaticTypeContext, other Inte
 		res = toTwosComplement(res, v.BigInt, 128)
 		res = res.Lsh(res, uint(o.BigInt.Uint64()))
 		res = truncate(res, 128/bits.UintSize)
-		return fromTwosComplement(res)
+		return fromTwosComplement(res, 128)
 	}
 
 	return NewInt128ValueFromBigInt(context, valueGetter)
